@@ -171,50 +171,63 @@ Theorem C05num_dec_cmp_spec_is_rational_order : forall s1 v1 s2 v2, 0 <= s1 -> 0
 Proof. exact spec_dec_cmp_cross. Qed.
 Print Assumptions C05num_dec_cmp_spec_is_rational_order.
 
-(* never a wrong answer, for every pair of types and values, whichever side is rescaled, clamped or not *)
-Theorem C05num_dec_cmp_sound : forall m kd p1 s1 v1 p2 s2 v2 c,
-  dec_cmp_core m kd p1 s1 (Some v1) p2 s2 (Some v2) = Ok (Some c) -> c = spec_dec_cmp s1 v1 s2 v2.
+(* never a wrong answer, for every pair of types and values, whichever side is rescaled, clamped or not, in every
+   variant P of the source (model/NumFn.v cparams) *)
+Theorem C05num_dec_cmp_sound : forall P m kd p1 s1 v1 p2 s2 v2 c,
+  dec_cmp_core P m kd p1 s1 (Some v1) p2 s2 (Some v2) = Ok (Some c) -> c = spec_dec_cmp s1 v1 s2 v2.
 Proof. exact dec_cmp_sound. Qed.
 Print Assumptions C05num_dec_cmp_sound.
 
-Theorem C05num_dec_cmp_null : forall m kd p1 s1 v1 p2 s2 v2 c,
-  dec_cmp_core m kd p1 s1 v1 p2 s2 v2 = Ok c -> (v1 = None \/ v2 = None) -> c = None.
+Theorem C05num_dec_cmp_null : forall P m kd p1 s1 v1 p2 s2 v2 c,
+  dec_cmp_core P m kd p1 s1 v1 p2 s2 v2 = Ok c -> (v1 = None \/ v2 = None) -> c = None.
 Proof. exact dec_cmp_null. Qed.
 Print Assumptions C05num_dec_cmp_null.
 
 (* full statement (refuted: C05num_dec_cmp_refuted -- the common precision is clamped at MAX_PRECISION and the rescaled
    value does not fit, or the i8 arithmetic of decimal_bind overflows):
-     forall m kd p1 s1 v1 p2 s2 v2, 1 <= p1 <= maxprec kd -> 1 <= p2 <= maxprec kd -> -128 <= s1 <= p1 -> -128 <= s2 <= p2 ->
+     forall P m kd p1 s1 v1 p2 s2 v2, 1 <= p1 <= maxprec kd -> 1 <= p2 <= maxprec kd -> -128 <= s1 <= p1 -> -128 <= s2 <= p2 ->
        Z.abs v1 < 10 ^ p1 -> Z.abs v2 < 10 ^ p2 ->
-       dec_cmp_core m kd p1 s1 (Some v1) p2 s2 (Some v2) = Ok (Some (spec_dec_cmp s1 v1 s2 v2)) *)
-Theorem C05num_dec_cmp_correct_partial : forall m kd p1 s1 v1 p2 s2 v2,
+       dec_cmp_core P m kd p1 s1 (Some v1) p2 s2 (Some v2) = Ok (Some (spec_dec_cmp s1 v1 s2 v2)) *)
+Theorem C05num_dec_cmp_correct_partial : forall P m kd p1 s1 v1 p2 s2 v2,
   1 <= p1 <= maxprec kd -> 1 <= p2 <= maxprec kd -> -64 <= s1 <= p1 -> -64 <= s2 <= p2 ->
   Z.max (p1 - s1) (p2 - s2) + Z.max s1 s2 <= maxprec kd ->
   Z.abs v1 < 10 ^ p1 -> Z.abs v2 < 10 ^ p2 ->
-  dec_cmp_core m kd p1 s1 (Some v1) p2 s2 (Some v2) = Ok (Some (spec_dec_cmp s1 v1 s2 v2)).
+  dec_cmp_core P m kd p1 s1 (Some v1) p2 s2 (Some v2) = Ok (Some (spec_dec_cmp s1 v1 s2 v2)).
 Proof. exact dec_cmp_correct_partial. Qed.
 Print Assumptions C05num_dec_cmp_correct_partial.
 
 Theorem C05num_dec_cmp_refuted :
-  dec_cmp_core Debug D64 18 0 (Some 1) 18 18 (Some (5 * 10 ^ 17)) = Err /\ spec_dec_cmp 0 1 18 (5 * 10 ^ 17) = Gt /\
-  dec_cmp_core Debug D128 38 0 (Some 1) 38 38 (Some (5 * 10 ^ 37)) = Err /\
-  dec_cmp_core Debug D128 38 (-100) None 5 2 (Some 50) = Panic /\ dec_cmp_core Release D128 38 (-100) None 5 2 (Some 50) = Err /\
-  dec_cmp_core Debug D128 18 0 (Some 1) 19 18 (Some (5 * 10 ^ 17)) = Ok (Some Gt).
+  dec_cmp_core P_found Debug D64 18 0 (Some 1) 18 18 (Some (5 * 10 ^ 17)) = Err /\ spec_dec_cmp 0 1 18 (5 * 10 ^ 17) = Gt /\
+  dec_cmp_core P_found Debug D128 38 0 (Some 1) 38 38 (Some (5 * 10 ^ 37)) = Err /\
+  dec_cmp_core P_found Debug D128 38 (-100) None 5 2 (Some 50) = Panic /\ dec_cmp_core P_found Release D128 38 (-100) None 5 2 (Some 50) = Err /\
+  dec_cmp_core P_found Debug D128 18 0 (Some 1) 19 18 (Some (5 * 10 ^ 17)) = Ok (Some Gt).
 Proof. exact dec_cmp_refuted. Qed.
 Print Assumptions C05num_dec_cmp_refuted.
 
 (* decimal ~ decimal of either width, decimal ~ integer whenever the binder stays in decimals: exact *)
-Theorem C05num_cmp_mixed_sound : forall m l r c, exact_path l r = true ->
-  impl_cmp_mixed m l r = Ok (Some c) -> spec_cmp_mixed l r = Ok (Some c).
+Theorem C05num_cmp_mixed_sound : forall P m l r c, exact_path P l r = true ->
+  impl_cmp_mixed P m l r = Ok (Some c) -> spec_cmp_mixed l r = Ok (Some c).
 Proof. exact cmp_mixed_sound. Qed.
 Print Assumptions C05num_cmp_mixed_sound.
 
+(* with Int64 / UInt64 / Decimal64 -> Decimal128 preferred over Float64 (P_repaired) that is every comparison of a
+   decimal with a decimal or an integer *)
+Theorem C05num_exact_path_repaired : forall l r, exact_path P_repaired l r =
+  match l, r with OpDec _ _ _ _, OpDec _ _ _ _ | OpDec _ _ _ _, OpInt _ _ _ | OpInt _ _ _, OpDec _ _ _ _ => true | _, _ => false end.
+Proof. exact exact_path_repaired. Qed.
+Print Assumptions C05num_exact_path_repaired.
+
 Theorem C05num_cmp_mixed_refuted :
-  impl_cmp_mixed Debug (OpInt Signed 64 (Some 9007199254740993)) (OpDec D64 18 0 (Some 9007199254740992)) = Ok (Some Eq) /\
+  impl_cmp_mixed P_found Debug (OpInt Signed 64 (Some 9007199254740993)) (OpDec D64 18 0 (Some 9007199254740992)) = Ok (Some Eq) /\
   spec_cmp_mixed (OpInt Signed 64 (Some 9007199254740993)) (OpDec D64 18 0 (Some 9007199254740992)) = Ok (Some Gt) /\
-  impl_cmp_mixed Debug (OpDec D128 20 2 (Some 150)) (OpInt Unsigned 64 (Some 18446744073709551615)) = Err /\
+  impl_cmp_mixed P_found Debug (OpDec D128 20 2 (Some 150)) (OpInt Unsigned 64 (Some 18446744073709551615)) = Err /\
   spec_cmp_mixed (OpDec D128 20 2 (Some 150)) (OpInt Unsigned 64 (Some 18446744073709551615)) = Ok (Some Lt) /\
-  impl_cmp_mixed Debug (OpInt Unsigned 64 (Some 5)) (OpDec D64 10 2 (Some 500)) = Err.
+  impl_cmp_mixed P_found Debug (OpInt Unsigned 64 (Some 5)) (OpDec D64 10 2 (Some 500)) = Err /\
+  (* the same operands with the repaired variants *)
+  impl_cmp_mixed P_repaired Debug (OpInt Signed 64 (Some 9007199254740993)) (OpDec D64 18 0 (Some 9007199254740992)) = Ok (Some Gt) /\
+  impl_cmp_mixed P_repaired Debug (OpDec D128 20 2 (Some 150)) (OpInt Unsigned 64 (Some 18446744073709551615)) = Ok (Some Lt) /\
+  impl_cmp_mixed P_repaired Debug (OpInt Unsigned 64 (Some 5)) (OpDec D64 10 2 (Some 500)) = Ok (Some Eq) /\
+  dec_cmp_core P_repaired Debug D128 38 (-100) None 5 2 (Some 50) = Err.
 Proof. exact cmp_mixed_refuted. Qed.
 Print Assumptions C05num_cmp_mixed_refuted.
 
@@ -244,6 +257,12 @@ Theorem C05num_src_variants_known : exists g l f s r,
   d2d_scale_sub_native = Some r /\ In g [0; 1] /\ In l [0; 1] /\ In f [0; 1] /\ In s [0; 1] /\ In r [0; 1].
 Proof. exact src_variants_known. Qed.
 Print Assumptions C05num_src_variants_known.
+
+(* the three variable places of the decimal comparison path are in one of their transcribed variants *)
+Theorem C05num_src_cmp_params_known : exists b u w,
+  decbind_i8 = Some b /\ u64_dec_precision = Some u /\ wide_dec128 = Some w /\ In b [0; 1] /\ In u [19; 20] /\ In w [0; 1].
+Proof. exact src_cmp_params_known. Qed.
+Print Assumptions C05num_src_cmp_params_known.
 
 (* ---- 10. regression witnesses: what the definitions the source had before those fixes (prefix old_) did *)
 Theorem C05num_old_gcd_min_panics_debug : forall w b, 0 < w ->
